@@ -172,9 +172,43 @@ pub fn build(base: &Module, salt: u64) -> Scenario {
         make_degenerate(&mut lit, &mut r);
     }
     lit.name = "Main-Unit".into();
+    // every third scenario: DEFAULT values on components whose type is a reference that cannot be
+    // looked up (defined nowhere, or imported from a module that is not loaded) - the literal variant
+    // resolves with the type reference left as it is, so the referencing variant has to as well
+    let foreign = salt % 3 == 1;
+    let foreign_import = foreign && salt % 2 == 0;
+    let foreign_def = |vias: [Option<String>; 2]| {
+        let [a, b] = vias;
+        Def {
+            name: "ForeignTyped".into(),
+            tag: None,
+            ty: Type::Sequence(Fields {
+                comps: vec![
+                    Comp { name: "plain".into(), tag: None, ty: Type::Boolean, presence: Presence::Mandatory },
+                    Comp { name: "count".into(), tag: None, ty: Type::Ref("Foreign-Count".into()), presence: Presence::Default(DefaultVal { lit: Lit::Int(5), via: a }) },
+                    Comp { name: "flag".into(), tag: None, ty: Type::Ref("Foreign-Flag".into()), presence: Presence::Default(DefaultVal { lit: Lit::Bool(true), via: b }) },
+                ],
+                root: None,
+            }),
+        }
+    };
+    if foreign {
+        lit.body.push(Assignment::Type(foreign_def([None, None])));
+        if foreign_import {
+            lit.imports.push(Import { symbols: vec!["Foreign-Count".into(), "Foreign-Flag".into()], from: "Absent-Unit".into(), oid: None });
+        }
+    }
     let literal = module_text(&lit);
     let mut main = lit.clone();
-    let assigns = introduce_references(&mut main, &mut r, 60, "");
+    if foreign {
+        main.body.pop();
+    }
+    let mut assigns = introduce_references(&mut main, &mut r, 60, "");
+    if foreign {
+        main.body.push(Assignment::Type(foreign_def([Some("foreign-count-default".into()), Some("foreignFlagDefault".into())])));
+        assigns.push(ValueAssign { name: "foreign-count-default".into(), ty: ValueType::Integer, lit: Lit::Int(5) });
+        assigns.push(ValueAssign { name: "foreignFlagDefault".into(), ty: ValueType::Boolean, lit: Lit::Bool(true) });
+    }
     let n_sib = 1 + r.below(3) as usize;
     let negative_kind = if assigns.is_empty() { 0 } else { r.below(11) }; // 0..3 positive
     let mut sib_assigns: Vec<Vec<ValueAssign>> = vec![Vec::new(); n_sib];
@@ -229,6 +263,9 @@ pub fn build(base: &Module, salt: u64) -> Scenario {
             placement.push(format!("import{k}:{}", ["by-name", "by-oid", "by-name-and-oid"][mode as usize]));
         }
         siblings.push(sm);
+    }
+    if foreign_import {
+        imports.push(Import { symbols: vec!["Foreign-Count".into(), "Foreign-Flag".into()], from: "Absent-Unit".into(), oid: None });
     }
     main.imports = imports;
     let mut body: Vec<Assignment> = local_before.into_iter().map(Assignment::Value).collect();
@@ -313,7 +350,7 @@ pub fn build(base: &Module, salt: u64) -> Scenario {
     Scenario { texts, main_name: "Main-Unit".into(), literal, negative, sites_replaced: assigns.len(), placement }
 }
 
-const RULE: &str = "a literal-only module A (roundtrip profile, proptest; in every fourth case some ranges / sizes are made degenerate `n..n` with and without extension marker) is turned into a referencing variant: a random subset of its literal sites (INTEGER bounds, SIZE bounds, DEFAULT values of INTEGER / BOOLEAN / strings) is replaced by fresh value references whose assignments are placed before the use, after the use, or in one of 1..3 sibling modules imported by name only, by OID only (the name in the import differs) or by both - the siblings' OIDs differ in the second arc, or in the last arc only, or each is a proper prefix of the next; every load order of all modules into MultiModuleResolver (and Model::try_resolve when there is only one module). Oracle: the resolved definitions of the referencing module == those of the literal module (asn1rs's own PartialEq) for every load order. Negative variants (must give Err for every load order): assignment missing everywhere; import removed while a same-named assignment exists in a loaded, non-imported sibling; exporting module not loaded; BOOLEAN / character string / hstring / bstring value assigned where a range or size bound needs an integer. Non-trivial: >= 1 site replaced; distinct = hash of (texts, negative kind).";
+const RULE: &str = "a literal-only module A (roundtrip profile, proptest; in every fourth case some ranges / sizes are made degenerate `n..n` with and without extension marker) is turned into a referencing variant: a random subset of its literal sites (INTEGER bounds, SIZE bounds, DEFAULT values of INTEGER / BOOLEAN / strings) is replaced by fresh value references whose assignments are placed before the use, after the use, or in one of 1..3 sibling modules imported by name only, by OID only (the name in the import differs) or by both - the siblings' OIDs differ in the second arc, or in the last arc only, or each is a proper prefix of the next; every load order of all modules into MultiModuleResolver (and Model::try_resolve when there is only one module). Oracle: the resolved definitions of the referencing module == those of the literal module (asn1rs's own PartialEq) for every load order. In every third scenario the main module also has a SEQUENCE whose DEFAULT components are typed by references that cannot be looked up (defined nowhere, or imported from a module that is not loaded): the literal variant resolves, so the referencing one must. Negative variants (must give Err for every load order): assignment missing everywhere; import removed while a same-named assignment exists in a loaded, non-imported sibling; exporting module not loaded; BOOLEAN / character string / hstring / bstring value assigned where a range or size bound needs an integer. Non-trivial: >= 1 site replaced; distinct = hash of (texts, negative kind).";
 
 pub fn run(ctx: Ctx) -> i32 {
     let report = Report::new(ctx.clone(), RULE);
